@@ -162,7 +162,7 @@ def drivers(kind, flux, iname, cfl, bc, idx, res=None, par=None):
         with np.errstate(all="ignore"):
             dt0 = float(np.min(disc.calc_timestep(f, cfl)))
             try:
-                with core.time_limit(20.0):
+                with core.time_limit(4.0):      # the legacy driver never returns once its time step is NaN: a short horizon, reported
                     if entry == "solve":
                         got = list(solver.solve(f, cfl, [8.3 * dt0], stop={"maxit": 60, "tottime": 1e30}).solutions) + list(solver.solve(f, cfl, stop={"maxit": 60}).solutions)
                     else:
@@ -240,6 +240,9 @@ def shard_drivers(arg):
         res.traces += 1
         for s, w in drivers(kind, flux, iname, cfl, bc, idx, res, par):
             res.violation(s, w, {"kind": "drv", "model": kind, "flux": flux, "integrator": iname, "cfl": cfl, "bc": bc, "idx": list(idx), "par": par})
+        if sum(n_ for k_, n_ in res.nviol.items() if k_.endswith("/non-termination")) >= 3:
+            res.census["shard-abandoned-after-non-terminating-calls"] += 1      # each costs its horizon; three are enough to report
+            break
     return res
 
 
